@@ -109,6 +109,8 @@ def decision_reads(repo, names):
                             alias.setdefault(a.targets[0].id, x.attr)
                         elif isinstance(x, ast.Call) and norm(x.func) == "vars" and "__dict__" in names:
                             alias.setdefault(a.targets[0].id, "__dict__")
+                        elif isinstance(x, ast.Constant) and isinstance(x.value, str) and x.value in names and isinstance(a.value, ast.Call):
+                            alias.setdefault(a.targets[0].id, x.value)      # known = getattr(self, "_memo", None)
             for n in ast.walk(fi.node):
                 if not _owner(fi, n):
                     continue
